@@ -97,6 +97,8 @@ def run(repo, rep):
     rule_cpu_pass_move(repo, rep)
     rep.clause("C13-aj", "chain merges (pre -> mid -> post into mid) go ahead only if each tensor in between has exactly one consumer")
     rule_chain_merge_consumers(repo, rep)
+    rep.clause("C13-ap", "tensors of accelerated operators have complete quantisation records: a scale without a zero point is rejected by the semantic check")
+    rule_quant_record_complete(repo, rep)
     rep.clause("C13-ao", "table generators evaluate their math function under a handler for OverflowError (entries beyond the float range saturate)")
     rule_lut_fn_overflow(repo, rep)
     rep.clause("C13-an", "operands that get_split_inputs_axis asserts constant are required constant by a registered constraint of the operator")
@@ -2358,3 +2360,22 @@ def rule_lut_fn_overflow(repo, rep):
                           "math.exp raises OverflowError ('math range error') for arguments above ~709: an int16 EXP with input scale 0.05 (range +-1638) aborts the compilation instead of saturating the table entry")
     if n < 1:
         raise AnalysisError("lut.py: no call of a table function parameter found")
+
+
+def rule_quant_record_complete(repo, rep):
+    """(ap) the scaling code reads scale and zero point of every IFM / OFM / weight tensor of an accelerated operator
+    (`int(zero_point)`, `zero_point != 0` ..). The flatbuffer allows a record with a scale and no zero point (the reader stores None).
+    The semantic check that requires quantisation parameters must reject such a record as well as an absent one: its rejecting test
+    mentions `zero_point is None` next to the `quantization is None` case."""
+    sem = repo.mod("tflite_model_semantic")
+    f = sem.func("TFLiteSemantic.constraint_tens_quant_none_check")
+    site = "ethosu/vela/tflite_model_semantic.py:TFLiteSemantic.constraint_tens_quant_none_check"
+    tests = [i for i in ast.walk(f) if isinstance(i, ast.If) and any(isinstance(x, ast.Assign) and str(norm(x.targets[0])) == "valid" and str(norm(x.value)) == "False" for x in i.body)]
+    if len(tests) != 1:
+        raise AnalysisError(f"constraint_tens_quant_none_check: {len(tests)} rejecting tests")
+    t = str(norm(tests[0].test))
+    alias = {a.targets[0].id: str(norm(a.value)) for a in ast.walk(f) if isinstance(a, ast.Assign) and len(a.targets) == 1 and isinstance(a.targets[0], ast.Name)}
+    for k, v in alias.items():
+        t = _re.sub(rf"\b{k}\b", v, t)
+    rep.check("quantization is None" in t and "zero_point is None" in t, "C13-ap", site, "a quantisation record without a zero point is rejected like an absent record",
+              f"`{t[:100]}`: a tensor with a scale but no zero point passes the check; get_ofm_quantization / constraint_weights_limit then evaluate int(None) (PAD with such an OFM, CONV_2D with such weights: TypeError)")
